@@ -543,6 +543,44 @@ pub fn render_enum(spec: &EnumSpec, derives: &[&str]) -> String {
             body = body
         );
     }
+    for (flag, items) in [
+        // the prelude's Ok / Err / Some / None re-bound where the enum is declared (e.g. by glob-importing an enum with such variants)
+        ("rebound-prelude-fns", "    fn Ok() {}\n    fn Err() {}\n    fn Some() {}\n    fn None() {}\n"),
+        // a user type called Option next to the enum
+        ("own-option-type", "    struct Option;\n"),
+    ] {
+        if spec.syntax.iter().any(|x| x == flag) {
+            let mut inner = spec.clone();
+            inner.syntax.retain(|x| x != flag);
+            let body = render_enum(&inner, derives);
+            return format!(
+                "pub mod scoped_{n}_{k} {{\n    #![allow(unused_imports, dead_code, non_snake_case)]\n    use super::*;\n{items}{body}}}\npub use scoped_{n}_{k}::*;\n",
+                n = spec.name.to_lowercase(),
+                k = flag.len(),
+                items = items,
+                body = body
+            );
+        }
+    }
+    if spec.syntax.iter().any(|x| x == "via-macro") {
+        // declaration context: the enum is produced by a macro_rules! macro; the error type and function of a custom parse
+        // error are macro ARGUMENTS (their tokens carry the caller's hygiene, the derive's own identifiers do not)
+        let mut inner = spec.clone();
+        inner.syntax.retain(|x| x != "via-macro");
+        let mut body = render_enum(&inner, derives);
+        // exactly the plain pair (not MyErrG<..> / my_err_generic / my_err_g)
+        let pair = "parse_err_ty = vf_core::MyErr, parse_err_fn = vf_core::my_err)";
+        let has_err = body.contains(pair);
+        if has_err {
+            body = body.replace(pair, "parse_err_ty = $t, parse_err_fn = $f)");
+        }
+        let n = spec.name.to_lowercase();
+        return if has_err {
+            format!("macro_rules! vf_decl_{n} {{ ($t:ty, $f:path) => {{\n{body}}} }}\nvf_decl_{n}!(vf_core::MyErr, vf_core::my_err);\n", n = n, body = body)
+        } else {
+            format!("macro_rules! vf_decl_{n} {{ () => {{\n{body}}} }}\nvf_decl_{n}!();\n", n = n, body = body)
+        };
+    }
     if spec.syntax.iter().any(|x| x == "result-alias") {
         // declaration context: the enum lives in a module that has the customary `type Result<T> = ..` alias in scope
         // (generated code that says `Result<A, B>` instead of `::core::result::Result<A, B>` stops compiling there)
